@@ -159,7 +159,13 @@ impl Expansion<'_> {
                 tys.0.iter().map(|ty| {
                     let variant = self.variant.iter();
 
-                    let mut from_tys = self.fields.validate_type(ty)?;
+                    // For a single field the listed type is taken as a whole, even when it's a
+                    // tuple itself (`#[from(())] struct Unit(());`).
+                    let mut from_tys = if self.fields.len() == 1 {
+                        Either::Right(iter::once(ty))
+                    } else {
+                        self.fields.validate_type(ty)?
+                    };
                     let init = self.expand_fields(|ident, ty, index| {
                         let ident = ident.into_iter();
                         let index = index.into_iter();
